@@ -257,7 +257,8 @@ def gen_schema(c, opts=None):
                     fd["type"] = "String"
     if o["query_directive"]:
         schema["directives"]["qd"] = {
-            "args": {"n": {"type": "Int"}},
+            # same argument name as field arguments (a0..a2) on purpose: per-node context must not leak between them
+            "args": {"a0": {"type": "Int"}},
             "locations": ["FIELD", "FRAGMENT_SPREAD", "INLINE_FRAGMENT", "QUERY", "MUTATION", "SUBSCRIPTION", "FRAGMENT_DEFINITION"],
         }
     if o["schema_directive"] and c.maybe(50):
@@ -558,7 +559,7 @@ class DocGen:
         if self.o["custom_directive"] and "qd" in (self.schema.get("directives") or {}) and c.maybe(8):
             args = []
             if c.maybe(50):
-                args = [["n", self.value(ty("Int"), used)]]
+                args = [["a0", self.value(ty("Int"), used)]]
             out.append({"name": "qd", "args": args})
             self.stat("custom_directive_" + location)
         return c.shuffle(out)
@@ -719,7 +720,7 @@ class DocGen:
         ops = []
         anonymous = nops == 1 and c.maybe(50)
         for i in range(nops):
-            otype = c.weighted([(7, op_types[0])] + [(3, t) for t in op_types[1:]])
+            otype = op_types[0] if i == 0 else c.weighted([(7, op_types[0])] + [(3, t) for t in op_types[1:]])
             root = self.schema["roots"][otype]
             used, ufrags = set(), set()
             scope = Scope()
